@@ -180,6 +180,112 @@ def fingerprint(node):
     return hashlib.sha256(ast.dump(node, include_attributes=False).encode()).hexdigest()[:16]
 
 
+
+# ---------------------------------------------------------------- flag-assignment skeletons (Skel.v)
+
+CMP_OPS = {ast.Lt: "<", ast.LtE: "<=", ast.Gt: ">", ast.GtE: ">=", ast.Eq: "==", ast.NotEq: "!=",
+           ast.Is: "is", ast.IsNot: "isnot"}
+FLAG_ARRAY_NAMES = ("flag_arr", "flags")
+
+
+def sexp(node, inline):
+    if isinstance(node, ast.Name):
+        if node.id in inline:
+            return sexp(inline[node.id], inline)
+        return f"(SName {coq_string(node.id)})"
+    if isinstance(node, ast.Attribute):
+        return f"(SAttr {sexp(node.value, inline)} {coq_string(node.attr)})"
+    if isinstance(node, ast.Constant):
+        if node.value is None:
+            return "SNone"
+        need(isinstance(node.value, (int, float)) and not isinstance(node.value, bool),
+             f"skeleton: unsupported constant {node.value!r}")
+        return f"(SNum {coq_q(node.value)})"
+    if isinstance(node, ast.UnaryOp) and isinstance(node.op, ast.USub):
+        return f"(SNum {coq_q(-const_num(node.operand))})"
+    if isinstance(node, ast.UnaryOp) and isinstance(node.op, (ast.Invert, ast.Not)):
+        return f"(SInv {sexp(node.operand, inline)})"
+    if isinstance(node, ast.Compare):
+        need(len(node.ops) == 1 and type(node.ops[0]) in CMP_OPS, f"skeleton: unsupported comparison {ast.dump(node)}")
+        return f"(SCmp {coq_string(CMP_OPS[type(node.ops[0])])} {sexp(node.left, inline)} {sexp(node.comparators[0], inline)})"
+    if isinstance(node, ast.BinOp) and isinstance(node.op, (ast.BitOr, ast.BitAnd)):
+        op = "|" if isinstance(node.op, ast.BitOr) else "&"
+        return f"(SBin {coq_string(op)} {sexp(node.left, inline)} {sexp(node.right, inline)})"
+    if isinstance(node, ast.BoolOp):
+        op = "and" if isinstance(node.op, ast.And) else "or"
+        out = sexp(node.values[0], inline)
+        for v in node.values[1:]:
+            out = f"(SBin {coq_string(op)} {out} {sexp(v, inline)})"
+        return out
+    if isinstance(node, ast.Call):
+        f = node.func
+        name = f.attr if isinstance(f, ast.Attribute) else getattr(f, "id", None)
+        need(name == "isnan" and len(node.args) == 1, f"skeleton: unsupported call {ast.dump(node)}")
+        return f"(SCall {coq_string(name)} {sexp(node.args[0], inline)})"
+    raise TranslateError(f"skeleton: unsupported expression {ast.dump(node)}")
+
+
+def is_flag_value(node):
+    return isinstance(node, ast.Attribute) and isinstance(node.value, ast.Name) \
+        and node.value.id in ("QartodFlags", "FLAGS") and node.attr in FLAG_NAMES
+
+
+def skeleton(fn):
+    """the sequence of `flag_arr[...] = QartodFlags.X` statements of a test function, in source order, each with
+    the tests of its enclosing `if`s (and the negated tests of earlier `if ...: return` blocks)"""
+    steps = []
+    inline = {}
+
+    def walk(stmts, guards):
+        guards = list(guards)
+        for st in stmts:
+            if isinstance(st, ast.Assign) and len(st.targets) == 1:
+                tg = st.targets[0]
+                if isinstance(tg, ast.Subscript) and isinstance(tg.value, ast.Name) and tg.value.id in FLAG_ARRAY_NAMES \
+                        and is_flag_value(st.value):
+                    g = "[" + "; ".join(guards) + "]"
+                    sl = tg.slice
+                    if isinstance(sl, ast.Constant) and isinstance(sl.value, int):
+                        steps.append(f"SAt {g} {coq_z(sl.value)} {st.value.attr}")
+                    elif isinstance(sl, ast.UnaryOp) and isinstance(sl.op, ast.USub) and isinstance(sl.operand, ast.Constant):
+                        steps.append(f"SAt {g} {coq_z(-sl.operand.value)} {st.value.attr}")
+                    else:
+                        steps.append(f"SWhere {g} {sexp(sl, inline)} {st.value.attr}")
+                elif isinstance(tg, ast.Name) and isinstance(st.value, (ast.Compare, ast.BinOp)) \
+                        and (isinstance(st.value, ast.Compare) or isinstance(st.value.op, (ast.BitOr, ast.BitAnd))):
+                    inline[tg.id] = st.value          # mloc = lon.mask & lat.mask
+            elif isinstance(st, ast.If):
+                t = sexp(st.test, inline) if _translatable(st.test, inline) else None
+                if t is None:
+                    need(not _has_flag_assign(st), f"skeleton: flag assignment under an untranslatable guard, line {st.lineno}")
+                    continue
+                walk(st.body, guards + [t])
+                walk(st.orelse, guards + [f"(SInv {t})"])
+                if st.body and isinstance(st.body[-1], ast.Return) and not st.orelse:
+                    guards.append(f"(SInv {t})")       # the rest of the block runs only if we did not return
+            elif isinstance(st, ast.With):
+                walk(st.body, guards)
+    walk(fn.body, [])
+    return steps
+
+
+def _translatable(node, inline):
+    try:
+        sexp(node, inline)
+        return True
+    except TranslateError:
+        return False
+
+
+def _has_flag_assign(node):
+    for n in ast.walk(node):
+        if isinstance(n, ast.Assign) and len(n.targets) == 1 and isinstance(n.targets[0], ast.Subscript) \
+                and isinstance(n.targets[0].value, ast.Name) and n.targets[0].value.id in FLAG_ARRAY_NAMES \
+                and is_flag_value(n.value):
+            return True
+    return False
+
+
 def flist(names):
     return "[" + "; ".join(names) + "]"
 
@@ -194,7 +300,7 @@ def generate(repo):
     L = []
     w = L.append
     w("(* GENERATED by tools/gen_consts.py from /repo — do not edit. *)")
-    w("From IoosQc Require Import Base.")
+    w("From IoosQc Require Import Base Skel.")
     w("From Coq Require Import String.")
     w("Open Scope string_scope.")
     w("")
@@ -269,6 +375,16 @@ def generate(repo):
     for modname, mod in (("qartod", qartod), ("argo", argo), ("axds", axds)):
         w(f"Definition known_{modname} : list string := ["
           + "; ".join(coq_string(x) for x in module_names(mod)) + "].")
+    w("")
+    # flag-assignment skeletons of the straight-line tests (meaning: Skel.run_steps; tied to the hand-written
+    # models by SkelProofs.v)
+    for mod, name in [(qartod, "gross_range_test"), (qartod, "spike_test"), (qartod, "rate_of_change_test"),
+                      (qartod, "location_test"), (qartod, "attenuated_signal_test")]:
+        st = skeleton(find_func(mod, name))
+        need(st, f"skeleton of {name} is empty")
+        w(f"Definition skel_{name} : list sstep := [")
+        w(";\n".join("  " + x for x in st))
+        w("].")
     w("")
     # fx parser tables
     fx = parse(repo, "ioos_qc/config_creator/fx_parser.py")
